@@ -6,15 +6,17 @@
 # verdict (discharged, or canary refuted). Refuted / vacuous ones go to /tmp/sweep/problems.txt.
 S=/tmp/verif-snap2; W=/tmp/sweeprepo; O=/tmp/sweep
 mkdir -p $O $O/evidence
+if [ -z "$SWEEP_NOSETUP" ]; then
 if [ ! -d $S ]; then mkdir -p $S; rsync -a --exclude build --exclude .git /verif/ $S/; fi
 if [ ! -d $W ]; then git -C /repo worktree prune; git -C /repo worktree add -q --detach $W HEAD; fi
 ( cd $W && git checkout -q --detach $(git -C /repo rev-parse HEAD) && git checkout -- . && git clean -fdq )
 grep -rl '"/verif/kani/' $W --include=*.rs | xargs sed -i "s#\"/verif/kani/#\"$S/kani/#"
+fi
 for U in "$@"; do
-  echo "=== $U $(date +%T)" >> $O/log
-  ( cd $S && VERIF_SWEEP=1 VERIF_KINDS=tp,tb,tcanary VERIF_NO_REPLAY=1 VERIF_REPO=$W VERIF_EVIDENCE_DIR=$O/evidence \
-      VERIF_HARNESS_TIMEOUT=${VERIF_HARNESS_TIMEOUT:-900} VERIF_JOBS=${VERIF_JOBS:-6} ./check $U --tier thorough > $O/$U.log 2>&1; echo "rc=$?" >> $O/log )
-  python3 - $U >> $O/log <<'PY'
+  echo "=== $U $(date +%T)" >> $O/log.${SWEEP_TAG:-0}
+  ( cd $S && VERIF_SWEEP=1 VERIF_SKIP_EXTRA=1 VERIF_KINDS=tp,tb,tcanary VERIF_NO_REPLAY=1 VERIF_REPO=$W VERIF_EVIDENCE_DIR=$O/evidence \
+      VERIF_HARNESS_TIMEOUT=${VERIF_HARNESS_TIMEOUT:-900} VERIF_JOBS=${VERIF_JOBS:-6} ./check $U --tier thorough > $O/$U.log 2>&1; echo "rc=$?" >> $O/log.${SWEEP_TAG:-0} )
+  python3 - $U >> $O/log.${SWEEP_TAG:-0} <<'PY'
 import json,sys
 u=sys.argv[1]
 try: ev=json.load(open('/tmp/sweep/evidence/%s.json'%u))
@@ -26,4 +28,4 @@ for m in re.finditer(r"^  (\S+)[ \t]+(tp|tb|tcanary)[ \t]+(\S+)[ \t]*(.*)$", log
     print(' ',v,k,n,why[:160])
 PY
 done
-echo SWEEPDONE >> $O/log
+echo SWEEPDONE >> $O/log.${SWEEP_TAG:-0}
